@@ -110,8 +110,8 @@ def configured(R, cfg: Dict[str, Any]):
         st.enter_context(mock.patch.object(R, "PY_VERSION_NUM", str(cfg["major"]) + str(cfg["minor"])))
         st.enter_context(mock.patch.object(R, "ABI_TAGS", tuple(cfg["abi_tags"])))
         st.enter_context(mock.patch.object(R, "PLATFORM_TAGS", tuple(cfg["platform_tags"])))
-        st.enter_context(mock.patch.object(R, "get_glibc_version", lambda: glibc))
-        st.enter_context(mock.patch.object(R, "get_system_arch", lambda: cfg["arch"]))
+        st.enter_context(mock.patch.object(R, "get_glibc_version", lambda *a, **k: glibc))
+        st.enter_context(mock.patch.object(R, "get_system_arch", lambda *a, **k: cfg["arch"]))
         yield
 
 
@@ -122,7 +122,7 @@ def impl_cfg_of(R, raw: Dict[str, Any]) -> Dict[str, Any]:
     impl = R.INTERPRETER_TAGS.get("CPython", "cp")
     fake_sys = _Proxy(_real_sys, version_info=vi, platform="linux", maxunicode=0x10FFFF if raw["ucs4"] else 0xFFFF)
 
-    def get_config_var(name: str) -> Any:
+    def get_config_var(name: str, *a: Any, **k: Any) -> Any:
         return {"WITH_PYMALLOC": 1 if raw["pymalloc"] else 0, "Py_UNICODE_SIZE": 4 if raw["ucs4"] else 2}.get(name)
 
     with contextlib.ExitStack() as st:
@@ -130,7 +130,7 @@ def impl_cfg_of(R, raw: Dict[str, Any]) -> Dict[str, Any]:
         st.enter_context(mock.patch.object(R, "sysconfig", _Proxy(R.sysconfig, get_config_var=get_config_var)))
         st.enter_context(mock.patch.object(R, "INTERPRETER_TAG", impl))
         st.enter_context(mock.patch.object(R, "PY_VERSION_NUM", str(vi.major) + str(vi.minor)))
-        st.enter_context(mock.patch.object(R.distutils.util, "get_platform", lambda: "linux-" + raw["arch"]))
+        st.enter_context(mock.patch.object(R.distutils.util, "get_platform", lambda *a, **k: "linux-" + raw["arch"]))
         abi = R._get_abi_tag()
         plats = tuple(R._get_platform_tags())
     return {"impl": impl, "major": vi.major, "minor": vi.minor, "abi_tags": ["abi" + str(vi.major), abi],
@@ -434,6 +434,7 @@ def exc_name(f, *a):
     try:
         return ("OK", f(*a))
     except Exception as ex:  # noqa: BLE001 - the class name is the observation
+        common.reraise_harness_fault(ex)     # ... unless the error is one of the harness's own stand-ins
         return ("ERR", type(ex).__name__)
 
 
@@ -629,10 +630,10 @@ def correspondence(ctx: Ctx) -> None:
         s0 = rng.choice(strs) if rng.random() < 0.6 else "".join(rng.choice("0123456789. _+-x") for _ in range(rng.randint(0, 6)))
         mode = rng.choice(["bytes", "str", "str", "missing"]) if rng.random() < 0.3 else "bytes"
 
-        def fake_cdll(name, _s=s0, _mode=mode):
+        def fake_cdll(*a, _s=s0, _mode=mode, **k):     # CDLL(None) / CDLL(None, use_errno=...) ...
             ns = types.SimpleNamespace()
             if _mode != "missing":
-                def gnu_get_libc_version():
+                def gnu_get_libc_version(*a, **k):
                     return _s.encode("ascii") if _mode == "bytes" else _s
                 ns.gnu_get_libc_version = gnu_get_libc_version
             return ns
